@@ -359,6 +359,33 @@ REGISTRY.update({"C17": (check_c17, "model_checking")})
 # --------------------------------------------------------------------------------------------------
 # C13 parameter validation and chain
 # --------------------------------------------------------------------------------------------------
+def prime_cert(p):
+    """Miller-Rabin record for spec/Primes.tla: the chains for the 12 bases with quotient hints (all untrusted)."""
+    L = arith.limbs
+    d, r = p - 1, 0
+    while d % 2 == 0:
+        d //= 2
+        r += 1
+    bases = []
+    for a in (2, 3, 5, 7, 11, 13, 17, 19, 23, 29, 31, 37):
+        cur, steps = a % p, []
+        for bit in bin(d)[3:]:
+            nxt = cur * cur % p
+            steps.append({"k": "s", "r": L(nxt), "h": L(cur * cur // p)})
+            cur = nxt
+            if bit == "1":
+                nxt = cur * a % p
+                steps.append({"k": "m", "r": L(nxt), "h": L(cur * a // p)})
+                cur = nxt
+        sq = []
+        for _ in range(max(r - 1, 0)):
+            nxt = cur * cur % p
+            sq.append({"r": L(nxt), "h": L(cur * cur // p)})
+            cur = nxt
+        bases.append({"a": a, "steps": steps, "sq": sq})
+    return {"d": L(d), "r": r, "bases": bases}
+
+
 def check_c13(rep):
     quick = rep.tier == "quick"
     wd = workdir("C13")
@@ -418,6 +445,32 @@ def check_c13(rep):
                 gens.append({"kind": "batching", "n": n, "bits": bits})
     open(gfile, "w").write("\n".join(json.dumps(g) for g in gens) + "\n")
     genev = [json.loads(l) for l in hcv(["c13", "gen", gfile], timeout=600).splitlines()]
+    # generated moduli of realistic size: primality decided by TLC through Miller-Rabin certificates (Primes.tla)
+    bigreq = []
+    for n in (8, 1024, 4096, 8192) if quick else (2, 8, 64, 1024, 2048, 4096, 8192, 16384, 32768):
+        for bits in ([60], [60, 60, 60], [50, 40, 30, 60], [36, 36, 37], [27, 45]) if quick else ([60], [60, 60, 60, 60, 60, 60], [50, 40, 30, 60], [36, 36, 37], [27, 45], [59, 58, 57, 56, 55], [33, 32, 31]):
+            if all(b > (2 * n).bit_length() + 2 for b in bits):
+                bigreq.append({"kind": "coeff", "n": n, "bits": bits})
+        for bits in ([40], [60], [33, 34]) if quick else ([40], [60], [33, 34], [25, 50], [59]):
+            if all(b > (2 * n).bit_length() + 2 for b in bits):
+                bigreq.append({"kind": "batching", "n": n, "bits": bits})
+    bfile = os.path.join(wd, "genbig.ndjson")
+    open(bfile, "w").write("\n".join(json.dumps(g) for g in bigreq) + "\n")
+    bigev = [json.loads(l) for l in hcv(["c13", "gen", bfile], timeout=600).splitlines()]
+    blines = []
+    for g in bigev:
+        ps = [int(x) for x in g["primes"]]
+        blines.append(json.dumps({"ev": "genbig", "n": g["n"], "bits": g["bits"], "panic": bool(g["panic"]), "primes": [arith.limbs(x) for x in ps],
+                                  "hmod": [arith.limbs(x // (2 * g["n"])) for x in ps], "certs": [prime_cert(x) if x > 37 and x % 2 == 1 else {"d": [], "r": 0, "bases": []} for x in ps]}))
+    pbad, pst = arith.validate(blines, wd, name="primes", module="Trace_Primes", chunks=8, timeout=2500)
+    for b in pbad:
+        g = bigev[b[0] - 1]
+        rep.violation({"kind": "generated_moduli", "n": g["n"], "bits": g["bits"]}, {"event": g})
+    rep.cov["generated_moduli_decided_by_miller_rabin_certificates"] = sum(len(g["primes"]) for g in bigev if not g["panic"])
+    rep.cov["states"] += pst["distinct"]
+    rep.cov["transitions"] += pst["generated"]
+    if sum(1 for g in bigev if not g["panic"]) < len(bigev) // 2:
+        raise ToolError("most requests for realistic moduli were refused: the check would be vacuous")
     # contexts with generated (realistic) moduli
     primes_for = {}
     extra = []
